@@ -93,9 +93,9 @@ Proof. exact still_planned_no_erase. Qed.
 
 (* Master only: a non-Master never feeds the handler, neither on a loss nor on a crash. *)
 Theorem C06_master_only :
-  forall st s lostp crashed forced,
-    loss_handled st false lostp = false /\ crash_handled s false crashed forced = false
-    /\ crash_ending s false crashed = 0.
+  forall st s lostp crashed forced el,
+    loss_handled st RSlave lostp = false /\ crash_handled s false crashed forced = false
+    /\ crash_ending s false crashed = 0 /\ crash_ending_entered s false crashed el = false.
 Proof. exact master_only. Qed.
 
 (* On a process crash only the application-level strategies reach the handler, never for a forced state. *)
@@ -105,16 +105,30 @@ Theorem C06_crash_handled :
     master = true /\ crashed = true /\ forced = false /\ (s = RfStopApplication \/ s = RfRestartApplication).
 Proof. exact crash_handled_spec. Qed.
 
-(* Outside CONCILIATION the Master hands every batch of lost processes to the handler ... *)
+(* In every working state, CONCILIATION included, the Master hands every batch of lost processes to the handler and
+   a non-Master whose Master survives never does ... *)
 Theorem C06_loss_handled_partial :
-  forall st master lostp, st <> WConciliation -> loss_handled st master lostp = master && lostp.
+  forall st r lostp, r <> RNextMaster -> loss_handled st r lostp = loss_expected r lostp.
 Proof. exact loss_handled_spec. Qed.
 
-(* ... but NOT in CONCILIATION (candidate finding F8: ConciliationState._master_next does not call
-   _WorkingState._master_next, the lost processes are dropped at the next evaluation). *)
-Theorem C06_loss_in_conciliation_refuted :
-  exists st master lostp, loss_handled st master lostp <> master && lostp.
-Proof. exact loss_in_conciliation_refuted. Qed.
+(* ... but processes lost TOGETHER WITH THE MASTER are never handed over by the next Master (known finding
+   F9-lost-with-master: _check_consistence returns ELECTION before _master_next, lost_processes dies with the state). *)
+Theorem C06_lost_with_master_refuted :
+  exists st lostp, loss_handled st RNextMaster lostp <> loss_expected RNextMaster lostp.
+Proof. exact lost_with_master_refuted. Qed.
+
+(* SHUTDOWN / RESTART on a crash: requested by the Master and entered from OPERATION ... *)
+Theorem C06_crash_ending_entered_partial :
+  forall s master crashed,
+    crash_ending_entered s master crashed false = negb (Z.eqb (crash_ending s master crashed) 0).
+Proof. exact crash_ending_entered_operation. Qed.
+
+(* ... but a RESTART requested while the Master is in ELECTION is dropped (known finding
+   F10-election-restart-dropped: FiniteStateMachine._Transitions has no edge ELECTION -> RESTARTING). *)
+Theorem C06_election_restart_dropped_refuted :
+  exists s master crashed,
+    crash_ending s master crashed <> 0 /\ crash_ending_entered s master crashed true = false.
+Proof. exact election_restart_dropped_refuted. Qed.
 
 (* Hypotheses are satisfiable: a concrete history (deferral, supersession, promotion, the filter). *)
 Example C06_demo_run :
